@@ -1250,6 +1250,9 @@ func (g *Generator) generateHeaderMergeLogic(gf *protogen.GeneratedFile) {
 	gf.P("for _, header := range methodHeaders {")
 	gf.P("if header.GetRequired() {")
 	gf.P("allHeaders[strings.ToLower(header.GetName())] = header")
+	gf.P("} else {")
+	gf.P("// a method-level declaration that is not required replaces the service-level one too")
+	gf.P("delete(allHeaders, strings.ToLower(header.GetName()))")
 	gf.P("}")
 	gf.P("}")
 	gf.P()
